@@ -98,7 +98,7 @@ def floors(tier):
             "parameter_names": 30,
             "parameter_defaults": 30,
         },
-        "ops": ["do_fit", "wrapper-call", "yaml-load"],
+        "ops": ["do_fit", "wrapper-call", "yaml-load", "caller-container-changed-after-fit-was-built"],
         "reach": ["%s:%s" % a for a in ANCHORS],
         "strata": ["%s|%s|%s" % s for s in STRATA],
         "sets": {"family": len(FAMILY_NAMES), "variant": 40, "wrapper": 7, "model_form": 5, "ref-sign": 2},
@@ -406,6 +406,15 @@ def realise(sf, env, ctx):
                 else:
                     data.data = np.array([spec["x"], spec["y"]], dtype=float)
         fit = dsl.build_fit(spec, data=data)
+        if data is not None and spec["type"] in ("xy", "indexed"):
+            # the fit works on its own copy of the container: what the caller does with the original afterwards is not the fit's business
+            # (a relative uncertainty must keep referring to the values of the copy)
+            ctx.op("caller-container-changed-after-fit-was-built")
+            if spec["type"] == "xy":
+                data.y = 10.0 * np.array(data.y, dtype=float) + 1.0
+                data.x = 3.0 * np.array(data.x, dtype=float) + 1.0
+            else:
+                data.data = 10.0 * np.array(data.data, dtype=float) + 1.0
         for op in sf.get("ops", []):
             dsl.apply_live(fit, spec, op)
         return {"fit": fit, "fitted": False}
@@ -429,6 +438,14 @@ def realise(sf, env, ctx):
                 fit = Fit(data, mfun, **kw) if mfun is not None else Fit(data, **kw)
             else:
                 fit = cls(data, mfun, **kw) if mfun is not None else cls(data, **kw)
+            if sf.get("container_ops") and ftype in ("xy", "indexed") and hasattr(data, "add_error"):
+                # (as in the dsl path: the caller changes the container after the fit was built from it)
+                ctx.op("caller-container-changed-after-fit-was-built")
+                if ftype == "xy":
+                    data.y = 10.0 * np.array(data.y, dtype=float) + 1.0
+                    data.x = 3.0 * np.array(data.x, dtype=float) + 1.0
+                else:
+                    data.data = 10.0 * np.array(data.data, dtype=float) + 1.0
         apply_ops(fit, ftype, sf.get("ops", []))
         out = {"fit": fit, "fitted": False}
         if sf.get("do_fit") is not None:
@@ -1666,7 +1683,46 @@ GENERATORS = {"rel-abs": gen_rel_abs, "cor-cov": gen_cor_cov, "simple-matrix": g
 FAMILY_WEIGHTS = [0.16, 0.08, 0.1, 0.1, 0.1, 0.2, 0.14, 0.12]
 
 
+def gen_container_copy(rng):
+    """the container handed to XYFit and the container changed by the caller afterwards: two specifications of the same fit iff the fit
+    owns what it was given (a relative uncertainty keeps referring to the values the fit holds)"""
+    n = int(rng.integers(4, 9))
+    x = [float(v) for v in np.round(np.sort(rng.uniform(0.5, 6.0, size=n)), 4)]
+    y = [float(v) for v in np.round(rng.uniform(0.5, 3.0) + rng.uniform(0.5, 2.0) * np.array(x) + rng.normal(0, 0.2, size=n), 4)]
+    srcs = [{"kind": "simple", "axis": "y", "err": float(np.round(rng.uniform(0.03, 0.12), 4)), "relative": True, "corr": float(rng.choice([0.0, 0.3])), "name": "r0"}]
+    if rng.random() < 0.5:
+        srcs.append({"kind": "simple", "axis": "x", "err": float(np.round(rng.uniform(0.01, 0.04), 4)), "relative": True, "corr": 0.0, "name": "r1"})
+    if rng.random() < 0.5:
+        srcs.append({"kind": "simple", "axis": "y", "err": float(np.round(rng.uniform(0.1, 0.3), 4)), "relative": False, "corr": 0.0, "name": "a0"})
+    return {"property": "C14", "family": "container-copy", "variant": "xy", "sub": "relative-source", "x": x, "y": y, "sources": srcs, "scale": float(np.round(rng.uniform(3.0, 12.0), 3)), "read_first": bool(rng.random() < 0.3)}
+
+
+def run_container_copy(ctx, case):
+    from kafe2 import XYContainer, XYFit
+
+    def build(mutate):
+        c = XYContainer(np.array(case["x"]), np.array(case["y"]))
+        for sdict in case["sources"]:
+            dsl.apply_container_source(c, "xy", sdict)
+        if case["read_first"]:
+            _ = (c.x_err, c.y_err)
+        f = XYFit(c)
+        if mutate:
+            c.y = case["scale"] * np.array(case["y"]) + 1.0
+            c.x = case["scale"] * np.array(case["x"]) + 1.0
+        return f
+
+    ctx.op("caller-container-changed-after-fit-was-built")
+    a, b = build(True), build(False)
+    ok = True
+    for name in ("x_data", "y_data", "x_data_error", "y_data_error", "cost_function_value"):
+        ok = ctx.eq("container-copy." + name, np.array(getattr(a, name), dtype=float), np.array(getattr(b, name), dtype=float), detail={"what": "fit built from a container the caller changed afterwards vs fit built from an untouched container"}) and ok
+    return True
+
+
 def gen_case(rng, tier, idx, shard, nshards):
+    if idx % 40 == 7:
+        return gen_container_copy(rng)
     gi = idx * nshards + shard
     if gi < len(STRATA):
         fam, var, sub = STRATA[gi]
@@ -1791,6 +1847,8 @@ def run_case(ctx, case, env):
     ctx.reseed_legacy()
     fam, var, sub = case["family"], case["variant"], case["sub"]
     ctx.stratum(fam, var, sub)
+    if fam == "container-copy":
+        return run_container_copy(ctx, case)
     ctx.add_to_set("family", fam)
     ctx.add_to_set("variant", "%s/%s" % (fam, var))
     feats = case.get("features") or {}
